@@ -501,6 +501,15 @@ impl MgrModel {
                 self.v(sys, "c10/address-forgotten", format!("{what}: address {addr} disappeared from the book"));
             }
         }
+        // "dial successes re-score exactly the address used": the address of an established outbound connection must
+        // carry the success score afterwards, whatever it carried before and whatever happens to the connection next
+        // (accepted, or rolled back because of a limit)
+        for (addr, expect) in allowed {
+            if *expect == Some(CONNECTION_ESTABLISHED) && b.get(addr) != Some(&CONNECTION_ESTABLISHED) {
+                let now = b.get(addr).copied();
+                self.v(sys, "c10/success-not-rescored", format!("{what}: the connection over {addr} was established but the address has score {now:?} afterwards (before: {:?})", a.get(addr)));
+            }
+        }
     }
 }
 
